@@ -143,6 +143,11 @@ func ExportPrivateKey(keyPath string, passphrase []byte) ([]byte, error) {
 		return nil, fmt.Errorf("failed to create GCM: %w", err)
 	}
 
+	// a truncated or corrupted key file must be refused, not crash the node (gcm.Open panics on a bad nonce length)
+	if len(data.Nonce) != gcm.NonceSize() {
+		return nil, fmt.Errorf("failed to decrypt private key: invalid nonce length %d", len(data.Nonce))
+	}
+
 	// Decrypt the private key
 	privKeyBytes, err := gcm.Open(nil, data.Nonce, data.PrivKeyEncrypted, nil)
 	if err != nil {
@@ -334,6 +339,9 @@ func (s *FileSystemSigner) loadKeys(passphrase []byte) error {
 	var derivedKey []byte
 	if len(data.Salt) == 0 {
 		// fallback to naive approach
+		if len(passphrase) == 0 {
+			return fmt.Errorf("failed to decrypt private key: empty passphrase")
+		}
 		derivedKey = fallbackDeriveKey(passphrase, 32)
 	} else {
 		derivedKey = deriveKeyArgon2(passphrase, data.Salt, 32)
@@ -347,6 +355,11 @@ func (s *FileSystemSigner) loadKeys(passphrase []byte) error {
 	gcm, err := cipher.NewGCM(block)
 	if err != nil {
 		return fmt.Errorf("failed to create GCM: %w", err)
+	}
+
+	// a truncated or corrupted key file must be refused, not crash the node (gcm.Open panics on a bad nonce length)
+	if len(data.Nonce) != gcm.NonceSize() {
+		return fmt.Errorf("failed to decrypt private key: invalid nonce length %d", len(data.Nonce))
 	}
 
 	// Decrypt the private key
@@ -365,6 +378,12 @@ func (s *FileSystemSigner) loadKeys(passphrase []byte) error {
 	pubKey, err := crypto.UnmarshalEd25519PublicKey(data.PubKeyBytes)
 	if err != nil {
 		return fmt.Errorf("failed to unmarshal public key: %w", err)
+	}
+
+	// The public key is stored in clear text next to the encrypted private key. It must be the private key's own
+	// public key: otherwise the signer would report a key (and an address) its signatures do not verify under.
+	if !privKey.GetPublic().Equals(pubKey) {
+		return fmt.Errorf("public key in key file does not match the private key")
 	}
 
 	// Set the keys
